@@ -81,9 +81,98 @@ fn must_reject() -> Vec<(String, String)> {
     v
 }
 
+/// `break` / `continue` in every expression position that is inside a loop statement but not in its body (the
+/// condition of a `while` as block / `if` / `match`, the iterable of a `for`), at top level and inside a function, a
+/// lambda and a task, for the outermost loop of the body and for a nested one.  Built from the generator AST so that
+/// the same program goes to the checker model (`loopctx`).
+fn loop_head_programs() -> Vec<(String, Program)> {
+    let b = |x: Expr| Box::new(x);
+    let var = |x: &str| Expr::Var(x.to_string());
+    let lt2 = || Expr::Bin(BinOp::Lt, Box::new(Expr::Var("k".into())), Box::new(Expr::Int(2)));
+    let mut out = vec![];
+    for (jn, jump) in [("break", Stmt::Break), ("continue", Stmt::Continue)] {
+        for pos in ["while-cond-block", "while-cond-if", "while-cond-match", "for-iterable-block", "while-body", "for-body"] {
+            for nested in [false, true] {
+                for ctxname in ["main", "fn", "lambda", "task"] {
+                    let bump = Stmt::Assign("k".into(), AsgOp::Add, Expr::Int(1));
+                    let guard = |j: &Stmt| Stmt::Expr(Expr::If(b(var("cnd")), b(Expr::Block(vec![j.clone()])), b(Expr::Block(vec![]))));
+                    let the_loop = match pos {
+                        "while-cond-block" => Stmt::While(Expr::Block(vec![guard(&jump), Stmt::Expr(lt2())]), vec![bump.clone()]),
+                        "while-cond-if" => Stmt::While(
+                            Expr::If(b(var("cnd")), b(Expr::Block(vec![jump.clone(), Stmt::Expr(Expr::Bool(true))])), b(Expr::Block(vec![Stmt::Expr(lt2())]))),
+                            vec![bump.clone()],
+                        ),
+                        "while-cond-match" => Stmt::While(
+                            Expr::Match(
+                                b(Expr::Int(1)),
+                                vec![(Pat::Int(0), Expr::Block(vec![jump.clone(), Stmt::Expr(Expr::Bool(false))])), (Pat::Wild, lt2())],
+                            ),
+                            vec![bump.clone()],
+                        ),
+                        "for-iterable-block" => Stmt::For(Pat::Bind("it".into()), Expr::Block(vec![guard(&jump), Stmt::Expr(Expr::Int(2))]), vec![bump.clone()]),
+                        "while-body" => Stmt::While(lt2(), vec![bump.clone(), guard(&jump)]),
+                        _ => Stmt::For(Pat::Bind("it".into()), Expr::Int(2), vec![bump.clone(), guard(&jump)]),
+                    };
+                    let looped = if nested {
+                        vec![Stmt::For(Pat::Bind("outer".into()), Expr::Int(2), vec![Stmt::Assign("k".into(), AsgOp::Set, Expr::Int(0)), the_loop])]
+                    } else {
+                        vec![the_loop]
+                    };
+                    let mut body = vec![
+                        Stmt::Let(false, Pat::Bind("cnd".into()), None, Expr::Bool(false)),
+                        Stmt::Let(true, Pat::Bind("k".into()), None, Expr::Int(0)),
+                    ];
+                    body.extend(looped);
+                    let mut prog = Program { structs: vec![], enums: vec![], fns: vec![], main: vec![], final_ty: None };
+                    match ctxname {
+                        "main" => prog.main = body,
+                        "fn" => {
+                            body.push(Stmt::Expr(var("k")));
+                            prog.fns.push(FnDef { name: "fnl".into(), params: vec![("n".into(), Ty::Int)], ret: Ty::Int, body: Expr::Block(body) });
+                            prog.main = vec![Stmt::Expr(Expr::Print(b(Expr::Call("fnl".into(), vec![Expr::Int(1)]))))];
+                        }
+                        "lambda" => {
+                            body.push(Stmt::Expr(var("k")));
+                            prog.main = vec![
+                                Stmt::Let(false, Pat::Bind("lm".into()), None, Expr::Lam(vec![("a".into(), Ty::Int)], b(Expr::Block(body)))),
+                                Stmt::Expr(Expr::Print(b(Expr::CallV(b(var("lm")), vec![Expr::Int(1)])))),
+                            ];
+                        }
+                        _ => prog.main = vec![Stmt::Expr(Expr::Task(b(Expr::Block(body))))],
+                    }
+                    out.push((format!("{jn}/{pos}/{}/{ctxname}", if nested { "nested" } else { "outermost" }), prog));
+                }
+            }
+        }
+    }
+    out
+}
+
 fn main() {
     let mut ctx = Ctx::from_env("C03");
     let base = probe_shapes(&mut ctx);
+
+    // loop heads: whatever the checker accepts must compile, what it rejects must be a diagnostic; the verdict
+    // itself is compared with the checker model
+    let lh = loop_head_programs();
+    let lv = par_map(&lh, |(_, p)| verdict(&program_src(p)));
+    for ((name, p), v) in lh.iter().zip(lv) {
+        let pos = name.split('/').nth(1).unwrap_or("");
+        match &v {
+            Verdict::Compiled => {
+                ctx.count(&format!("loop-head:{pos}:accepted-compiled"));
+                ctx.case(format!("{} #{name}", loopctx_request(p)), "accept");
+            }
+            Verdict::Rejected => {
+                ctx.count(&format!("loop-head:{pos}:rejected"));
+                ctx.case(format!("{} #{name}", loopctx_request(p)), "reject");
+            }
+            _ => {
+                ctx.count(&format!("loop-head:{pos}:PANIC"));
+                ctx.spec_fail(format!("{name}: accepted by the checker but the compiler does not return (or the checker panics): {v:?}\n{}", program_src(p)));
+            }
+        }
+    }
 
     for (name, src) in must_reject() {
         let v = verdict(&src);
@@ -126,7 +215,7 @@ fn main() {
             let (prog, hist) = generate(&mut r, o);
             if nesting {
                 for (f, c) in hist {
-                    if ["task", "lambda", "lambda_nested", "while", "for_int", "for_array", "break", "continue", "assign_compound", "field_compound", "index_compound", "return"].contains(&f) {
+                    if ["task", "lambda", "lambda_nested", "while", "jump_in_while_cond", "jump_in_for_iterable", "for_int", "for_array", "break", "continue", "assign_compound", "field_compound", "index_compound", "return"].contains(&f) {
                         *ctx.hist.entry(format!("gen:{f}")).or_insert(0) += c;
                     }
                 }
